@@ -86,6 +86,9 @@ func (fx *FnExec) Run() (obls []*Obligation, err error) {
 		}
 	}
 	fx.bs[fn.Blocks[0]] = entry
+	if fx.onEntry != nil {
+		fx.onEntry(fx)
+	}
 	// preconditions
 	if fx.C != nil {
 		for _, r := range fx.C.Requires {
@@ -210,6 +213,11 @@ func (fx *FnExec) enterBlock(b *ssa.BasicBlock) *blockState {
 		if k == "$acnt" && strings.HasPrefix(term, "(ite") {
 			n := fx.freshName("acnt_m")
 			fx.emit("(define-fun %s () Int %s)", n, term)
+			term = n
+		}
+		if k == "$lk" && strings.HasPrefix(term, "(ite") {
+			n := fx.freshName("lk_m")
+			fx.emit("(define-fun %s () (Array Int Int) %s)", n, term)
 			term = n
 		}
 		st.gh[k] = term
@@ -1049,6 +1057,9 @@ func (fx *FnExec) execUnOp(x *ssa.UnOp) {
 	switch x.Op {
 	case token.MUL: // load
 		pl := fx.placeOf(v)
+		if fx.onLoad != nil {
+			fx.onLoad(fx, x, pl)
+		}
 		t := fx.load(pl)
 		n := fx.loaded(x.Type(), t)
 		fx.setReg(x, Val{S: n})
